@@ -266,13 +266,14 @@ def _parse_int(expr: cst.BaseExpression) -> int | None:
         The integer value, or ``None`` if the expression is not parseable.
     """
     if isinstance(expr, cst.Integer):
-        return int(expr.value)
+        # Not int(expr.value): literals may be hexadecimal, octal, binary or grouped
+        return expr.evaluated_value
     if (
         isinstance(expr, cst.UnaryOperation)
         and isinstance(expr.operator, cst.Minus)
         and isinstance(expr.expression, cst.Integer)
     ):
-        return -int(expr.expression.value)
+        return -expr.expression.evaluated_value
     return None
 
 
@@ -812,6 +813,9 @@ def _mutate_tuple(
         elems = elems[:idx] + elems[idx + 1 :]
     else:
         elems += [cst.Element(value=_element_value(constant_provider, element_pool))]
+    if not elems and not expr.lpar:
+        # A zero-length tuple must be wrapped in parentheses.
+        return cst.Tuple(elements=[])
     return expr.with_changes(elements=_tuple_elements(elems))
 
 
